@@ -20,8 +20,10 @@ type C05Case struct {
 
 func init() { register("C05", checkC05) }
 
-func genC05(t *rapid.T) C05Case {
-	o := semGenOpts{MaxFiles: 3, Naming: luagen.NamesTiny, Methods: true, GlobalsRW: true}
+func genC05(t *rapid.T) C05Case { return genC05Opt(t, false) }
+
+func genC05Opt(t *rapid.T, gQualified bool) C05Case {
+	o := semGenOpts{MaxFiles: 3, Naming: luagen.NamesTiny, Methods: true, GlobalsRW: true, GQualified: gQualified}
 	if rapid.IntRange(0, 3).Draw(t, "namingMixed") == 0 {
 		o.Naming = luagen.NamesMixed
 	}
